@@ -8,7 +8,7 @@ use crate::sim::*;
 use serde::{Deserialize, Serialize};
 use serde_json::json;
 use simcore::evidence::Evidence;
-use simcore::gen::{self, GLine, GenParams, SectionKind, ALL_SECTION_KINDS};
+use simcore::gen::{self, GLine, GenParams, SectionKind, ALL_SECTION_KINDS_C10};
 use simcore::report::*;
 use simcore::rng::{mix, tag, Rng};
 use std::collections::{BTreeMap, BTreeSet};
@@ -210,8 +210,8 @@ pub fn main_c10(tier: &str, seed: u64, replay: Option<&str>) -> i32 {
             }
         }
     }
-    for a in ALL_SECTION_KINDS {
-        for b in ALL_SECTION_KINDS {
+    for a in ALL_SECTION_KINDS_C10 {
+        for b in ALL_SECTION_KINDS_C10 {
             for m in 0..super::c10::MODES.len() {
                 specs.push((vec![*a, *b], m));
             }
@@ -220,9 +220,9 @@ pub fn main_c10(tier: &str, seed: u64, replay: Option<&str>) -> i32 {
     let mut rng = Rng::new(mix(seed, &[tag("C10"), tag("specs")]));
     if tier == "thorough" {
         for rep in 0..3 {
-            for a in ALL_SECTION_KINDS {
-                for b in ALL_SECTION_KINDS {
-                    for c in ALL_SECTION_KINDS {
+            for a in ALL_SECTION_KINDS_C10 {
+                for b in ALL_SECTION_KINDS_C10 {
+                    for c in ALL_SECTION_KINDS_C10 {
                         specs.push((vec![*a, *b, *c], (rep * 3 + specs.len()) % MODES.len()));
                     }
                 }
@@ -230,19 +230,19 @@ pub fn main_c10(tier: &str, seed: u64, replay: Option<&str>) -> i32 {
         }
         for _ in 0..20000 {
             let n = rng.range(4, 6);
-            specs.push(((0..n).map(|_| *rng.pick(ALL_SECTION_KINDS)).collect(), rng.range(0, MODES.len() - 1)));
+            specs.push(((0..n).map(|_| *rng.pick(ALL_SECTION_KINDS_C10)).collect(), rng.range(0, MODES.len() - 1)));
         }
     } else {
         for _ in 0..600 {
             let n = rng.range(3, 5);
-            specs.push(((0..n).map(|_| *rng.pick(ALL_SECTION_KINDS)).collect(), rng.range(0, MODES.len() - 1)));
+            specs.push(((0..n).map(|_| *rng.pick(ALL_SECTION_KINDS_C10)).collect(), rng.range(0, MODES.len() - 1)));
         }
     }
     // option swarm: every ordered pair of kinds under sampled option sets (quick: 4 per pair), and
     // longer sequences
     let per_pair = if tier == "thorough" { 60 } else { 4 };
-    for a in ALL_SECTION_KINDS {
-        for b in ALL_SECTION_KINDS {
+    for a in ALL_SECTION_KINDS_C10 {
+        for b in ALL_SECTION_KINDS_C10 {
             for _ in 0..per_pair {
                 specs.push((vec![*a, *b], SWARM));
             }
@@ -250,7 +250,7 @@ pub fn main_c10(tier: &str, seed: u64, replay: Option<&str>) -> i32 {
     }
     for _ in 0..(if tier == "thorough" { 60000 } else { 1500 }) {
         let n = rng.range(3, 5);
-        specs.push(((0..n).map(|_| *rng.pick(ALL_SECTION_KINDS)).collect(), SWARM));
+        specs.push(((0..n).map(|_| *rng.pick(ALL_SECTION_KINDS_C10)).collect(), SWARM));
     }
     // coverage floor: a section with wide line numbers followed by one with narrow ones, about the
     // same path, with line numbers shown
@@ -346,7 +346,7 @@ pub fn main_c10(tier: &str, seed: u64, replay: Option<&str>) -> i32 {
     ev.rule = "clause 1 (generation only, no schedule/fault): one evaluation = one in-process delta() run; a case = a sequence of 2-6 git file sections of 12 kinds (every ordered pair of kinds under 13 option modes enumerated; triples enumerated in the thorough tier; longer sequences sampled), rendered together and one by one. distinct_nontrivial = distinct (kind sequence, mode, seed) cases, each with at least one section boundary.".into();
     ev.counters.insert("cases".into(), specs.len() as u64);
     ev.counters.insert("distinct_adjacent_kind_pairs".into(), pairs.len() as u64);
-    ev.counters.insert("adjacent_kind_pairs_possible".into(), (ALL_SECTION_KINDS.len() * ALL_SECTION_KINDS.len()) as u64);
+    ev.counters.insert("adjacent_kind_pairs_possible".into(), (ALL_SECTION_KINDS_C10.len() * ALL_SECTION_KINDS_C10.len()) as u64);
     ev.counters.insert("modes".into(), MODES.len() as u64);
     ev.violations = reported.len() as u64;
     ev.samples = (0..3).map(|i| json!({"kinds": specs[i * 101 % specs.len()].0, "args": case_of(i * 101 % specs.len()).args})).collect();
